@@ -820,6 +820,24 @@ func makeDefaultValue(typ *TypeDescriptor, val *parser.ConstValue, tree *parser.
 	}
 	switch val.Type {
 	case parser.ConstType_ConstInt:
+		// the IDL grammar allows an integer literal for double (`double d = 1`) and bool (`bool b = 1`) too
+		if x := val.TypedValue.Int; x != nil && typ.typ == DOUBLE {
+			v := float64(*x)
+			tbuf := make([]byte, 8)
+			BinaryEncoding{}.EncodeDouble(tbuf, v)
+			jbuf := json.EncodeFloat64(make([]byte, 0, 8), v)
+			return &DefaultValue{
+				goValue:      v,
+				jsonValue:    rt.Mem2Str(jbuf),
+				thriftBinary: rt.Mem2Str(tbuf),
+			}, nil
+		}
+		if x := val.TypedValue.Int; x != nil && typ.typ == BOOL {
+			if *x != 0 {
+				return &DefaultValue{goValue: true, jsonValue: "true", thriftBinary: string([]byte{0x01})}, nil
+			}
+			return &DefaultValue{goValue: false, jsonValue: "false", thriftBinary: string([]byte{0x00})}, nil
+		}
 		if !typ.typ.IsInt() {
 			return nil, fmt.Errorf("mismatched int default value with type %s", typ.name)
 		}
